@@ -79,7 +79,7 @@ Lemma secrets_exact sh pfs pfx : parse_fields (AStructPtr sh) = inr pfs ->
 Proof.
   intro H. destruct (parse_fields_inr _ _ H) as (sh' & [= <-] & Hl & _).
   destruct (parse_list_ok _ _ Hl) as [H1 _]. unfold secrets_of, declared_names.
-  rewrite <- H1, map_map. reflexivity.
+  rewrite <- H1, map_map. apply map_ext. intros pf. unfold full_name. apply go_join2_is_path_join2.
 Qed.
 
 Lemma declared_names_nonempty sh pfs : parse_fields (AStructPtr sh) = inr pfs -> Forall (fun n => n <> []) (declared_names sh).
@@ -633,6 +633,20 @@ Proof.
   intros I Ha. destruct (field_values _ _ _ _ _ _ I Ha) as (_ & HF).
   clear Ha. induction HF as [|pf r pfs' frs' (Hl & Hn & _) _ IH]; [constructor|].
   constructor; [split; [exact Hn|exact Hl]|exact IH].
+Qed.
+
+(* requested = applied, elementwise, for every prefix *)
+Lemma requested_are_applied pfx pfs (s s' : store) frs rq :
+  Inv s -> apply jdec unm_ok ans now_s pfx s pfs = (s', frs, rq) ->
+  Forall2 (fun n (r : fres) => rname r = n) (secrets_of pfx pfs) frs /\
+  secrets_of pfx pfs = map (fun pf => go_join [pfx; psecret pf]) pfs /\
+  secrets_of pfx pfs = map (fun pf => path_join2 pfx (psecret pf)) pfs.
+Proof.
+  intros I Ha. split; [|split].
+  - pose proof (apply_names_pointwise _ _ _ _ _ _ I Ha) as F. unfold secrets_of.
+    clear Ha. induction F as [|pf r pfs' frs' (Hn & _) _ IH]; [constructor|]. cbn [map]. constructor; assumption.
+  - reflexivity.
+  - unfold secrets_of. apply map_ext. intros pf. apply go_join2_is_path_join2.
 Qed.
 
 (* declaring through Secrets() and applying afterwards is NewStore with the struct configured, for
